@@ -51,6 +51,14 @@ CLAIMED["C13"] = dict(
     note=TRUST + " Other hash-map iteration sites on the compile path are covered only by the multi-process comparison.",
 )
 
+CLAIMED["C15"] = dict(
+    technique="Coq invariant proof over all histories of the artifact state machine (edit/check/build/link) with the hash function an injective parameter; history-level differential correspondence with the real check_package/build_package/read_core/link_cores through real files, inside coqc; inspection of the real .core files after each successful link as the failing-input search",
+    text="link_never_mixes_interfaces: for every history, if link accepts a set of cores then each linked package was built against exactly the exported interface its dependencies' linked cores carry (induction over the op list, hash injectivity as the only hypothesis; no axioms). body-only edits keep and interface edits change the hash; single-field corruptions covered by validation are rejected; the unhashed core body is a refutation theorem and a known finding. "
+         "Tied to separate.rs/artifact.rs by executing systematic and random histories over three dependency shapes against the real API and comparing success flags and hash equality patterns with the model.",
+    design_ref="DESIGN.md §4 C15",
+    note=TRUST + " Assumes sha256 collision freedom on the hash views of one history; 'interface-visible change' is abstracted to a version number.",
+)
+
 NOT_YET = {}
 
 def main():
